@@ -56,6 +56,23 @@ impl Rng {
     }
 }
 
+thread_local! {
+    /// set when a value that must be exactly representable (an integer after scaling) was not
+    static INEXACT: std::cell::Cell<bool> = const { std::cell::Cell::new(false) };
+}
+
+/// log an f64 that is expected to be an exact integer after scaling. A value that is not is logged as 0 and
+/// the event it belongs to is marked `"inexact": true` (TLC compares integers only; the trace specifications
+/// reject such an event under the property the value belongs to)
+pub fn num(x: f64) -> Value {
+    if x.is_finite() && x.fract() == 0.0 && x.abs() < 2_000_000_000.0 {
+        serde_json::json!(x as i64)
+    } else {
+        INEXACT.with(|f| f.set(true));
+        serde_json::json!(0)
+    }
+}
+
 pub struct Out {
     w: Box<dyn Write>,
     pub lines: usize,
@@ -77,7 +94,10 @@ impl Out {
     pub fn memory() -> Out {
         Out { w: Box::new(std::io::sink()), lines: 0, mem: Some(vec![]) }
     }
-    pub fn emit(&mut self, v: Value) {
+    pub fn emit(&mut self, mut v: Value) {
+        if INEXACT.with(|f| f.replace(false)) {
+            v["inexact"] = serde_json::json!(true);
+        }
         if let Some(m) = self.mem.as_mut() {
             m.push(v);
             return;
